@@ -10,6 +10,8 @@ pub fn exec_op2(sim: &Sim, op: &Op, _in_cb: bool) {
         Op::InsertExecutor { id, script } => crate::exec::insert_executor(sim, *id, script),
         Op::Schedule { exec, task, pendings, script } => crate::exec::schedule(sim, *exec, *task, *pendings, script),
         Op::Wake(t) => crate::exec::wake(sim, *t),
+        Op::InsertTransient { id, child, from_default, script } => crate::transient::insert_transient(sim, *id, child, *from_default, script),
+        Op::TrRemove(id) | Op::TrMap(id) | Op::TrReplace(id, _) => crate::transient::tr_op(sim, *id, op, _in_cb),
         Op::AdaptIo { id, fd, blocking, .. } => crate::adapter::adapt_io(sim, *id, *fd, *blocking),
         Op::AdapterIntoInner(id) => crate::adapter::release(sim, *id, true),
         Op::AdapterDrop(id) => crate::adapter::release(sim, *id, false),
